@@ -218,3 +218,45 @@ def is_failure_line(line, name=None):
     if not isinstance(line, str) or not line.startswith('BareScript:') or not _FAIL_WORDS.search(line):
         return False
     return name is None or name in _WORD.findall(line) or name in _QUOTED.findall(line)
+
+
+# ---------------------------------------------------------------------------------------------------------------------
+# Non-termination. Every run the drivers start has a positive statement limit (or a horizon), so a run that keeps the
+# CPU for many seconds is not slow, it is not terminating - the one thing the statement budget exists to prevent.
+# The watchdog counts the process's own CPU time (ITIMER_VIRTUAL), so machine load cannot trip it.
+
+import contextlib  # noqa: E402  pylint: disable=wrong-import-position
+import signal  # noqa: E402  pylint: disable=wrong-import-position
+
+WATCHDOG_CPU_S = float(os.environ.get('VERIF_WATCHDOG_CPU_S', '10'))
+
+
+_HANGS = []
+
+
+class ImplHang(BaseException):
+    """Raised inside the code under test when it has used WATCHDOG_CPU_S of CPU time in one bounded run."""
+
+
+@contextlib.contextmanager
+def cpu_watchdog(seconds=None):
+    # once one run of this process has been cut, further hanging runs are cut after a tenth of the time
+    seconds = (WATCHDOG_CPU_S / (10.0 if _HANGS else 1.0)) if seconds is None else seconds
+
+    def on_alarm(signum, frame):  # pylint: disable=unused-argument
+        _HANGS.append(1)
+        raise ImplHang()
+    try:
+        old = signal.signal(signal.SIGVTALRM, on_alarm)
+    except ValueError:          # not in the main thread: no watchdog
+        yield
+        return
+    signal.setitimer(signal.ITIMER_VIRTUAL, seconds)
+    try:
+        yield
+    finally:
+        signal.setitimer(signal.ITIMER_VIRTUAL, 0)
+        signal.signal(signal.SIGVTALRM, old)
+
+
+HANG = ('hang', f'the run did not end within {WATCHDOG_CPU_S:g} CPU-seconds although a statement limit was in force')
